@@ -476,6 +476,9 @@ func (s *srvStream) Recv() (*protoReplicaV1.ReplicaRequest, error) {
 	if len(st.toSrv) > 0 {
 		r := st.toSrv[0]
 		st.toSrv = st.toSrv[1:]
+		if os.Getenv("VERIF_DEBUG_C08") != "" {
+			st.cl.sim.Event("DEBUG stream %d recv idx=%d record: %s", st.id, r.ReplicaIndex, describeMsg(r.Record))
+		}
 		// recorded when the request reaches the handler: a follower that dies inside the append or before it
 		// answers may still have made the message durable
 		if st.target.id == followerID {
@@ -501,6 +504,17 @@ func (s *srvStream) Recv() (*protoReplicaV1.ReplicaRequest, error) {
 func (s *srvStream) Send(m *protoReplicaV1.ReplicaResponse) error {
 	st := s.st
 	st.cl.sim.Event("stream %d replica idx=%d -> follower answers %d %s (client gone: %v)", st.id, m.ReplicaIndex, m.AckIndex, m.Err, st.broken)
+	if os.Getenv("VERIF_DEBUG_C08") != "" {
+		simrt.QuietBegin()
+		defer simrt.QuietEnd()
+		if tq := st.cl.logOf(st.target.id); tq != nil {
+			for i := int64(0); i <= m.AckIndex; i++ {
+				if d, err := tq.Queue().Get(i); err == nil {
+					st.cl.sim.Event("DEBUG   node %d pos %d: %s", st.target.id, i, describeMsg(d))
+				}
+			}
+		}
+	}
 	if m.AckIndex == m.ReplicaIndex && m.Err == "" && st.target.id == followerID {
 		st.cl.appendedBy[m.ReplicaIndex] = st.leaderInc
 	}
@@ -673,6 +687,26 @@ func msgBytes(id int64, size int) []byte {
 	return b
 }
 
+// describeMsg: what a message of the workload says about itself.
+func describeMsg(b []byte) string {
+	if len(b) < 12 {
+		return fmt.Sprintf("%d bytes %x", len(b), b)
+	}
+	bad := -1
+	id := binary.LittleEndian.Uint64(b)
+	for i := 12; i < len(b); i++ {
+		if b[i] != byte((int(id)*17+i*3)%251) {
+			bad = i
+			break
+		}
+	}
+	tail := b
+	if len(tail) > 6 {
+		tail = tail[len(tail)-6:]
+	}
+	return fmt.Sprintf("%d bytes: message #%d of declared size %d, first byte off its pattern at %d, last bytes %x", len(b), id, binary.LittleEndian.Uint32(b[8:]), bad, tail)
+}
+
 // check: the invariants of the statement that can be evaluated at any quiescent point of the main task.
 // staleFromDeadLeader: the bytes the follower holds at position i are the ones a stream of a leader incarnation
 // that died before its log tail was lost handed to a handler (which appended them, possibly without having answered yet).
@@ -712,7 +746,7 @@ func (cl *cluster) check(when string) {
 					return
 				}
 				if w, ok := cl.written[i]; !ok || !bytes.Equal(w, data) {
-					c.Violate("C08/bytes-differ", "%s: position %d of the second follower does not hold the message the leader stored at %d (known to the ledger: %v)", when, i, i, ok)
+					c.Violate("C08/bytes-differ", "%s: position %d of the second follower does not hold the message the leader stored at %d (known to the ledger: %v; holds %s, stored %s)", when, i, i, ok, describeMsg(data), describeMsg(w))
 					return
 				}
 			}
@@ -829,7 +863,17 @@ func (H) Run(c *core.RunCtx) {
 	tMeta := filepath.Join(partDir(filepath.Join(c.Dir, fmt.Sprintf("node%d", thirdID))), "meta", "0.bat")
 	tGroup := filepath.Join(partDir(cl.nodes[leaderID].dir), "cg", fmt.Sprint(thirdID), "0.bat")
 	hw3, prevAck3 := int64(-1), int64(-1)
+	dbgPrev := -1
 	sim.OnStep = func() {
+		if os.Getenv("VERIF_DEBUG_C08") != "" {
+			pth := filepath.Join(partDir(filepath.Join(c.Dir, fmt.Sprintf("node%d", thirdID))), "data", "1.bat")
+			if b, err := os.ReadFile(pth); err == nil && len(b) > 90 {
+				if int(b[80]) != dbgPrev {
+					sim.Event("DEBUG byte 80 of node3 data/1.bat: %d -> %d (bytes 76..92: %x) %s", dbgPrev, b[80], b[76:92], sim.TaskDump())
+					dbgPrev = int(b[80])
+				}
+			}
+		}
 		if cl.third == 2 {
 			// the same rule for the second follower (its log is never lost, the leader's never cut)
 			if app, _, ok := readPos(tMeta); ok && app > hw3 {
